@@ -1,7 +1,7 @@
 (* C10 — syscall results: errors take precedence and come only from the END record.
    Rows generated from the source on every run; see props/C09.v. *)
 From Coq Require Import String ZArith NArith List Bool.
-From Kd Require Import theories.Base theories.Printers theories.DecoderDSL theories.DecoderDeps theories.DecoderProps
+From Kd Require Import theories.Base theories.Printers theories.DecoderDSL theories.DecoderDeps theories.DecoderProps theories.DecoderWindow
   gen.GenEnums gen.GenDecoders.
 Import ListNotations.
 Open Scope N_scope.
@@ -79,6 +79,14 @@ Proof.
     destruct (h_errno H (nth 0 (x_last X) 0)) eqn:E; rewrite !render_toks_cons; cbn [render_toks render_tok sval rapp];
       unfold wd; rewrite ?E; cbn [rapp]; rewrite ?app_nil_r; reflexivity.
 Qed.
+
+(* whatever lies between START and END (interrupts, nested complete calls - any number, in any order; the model has no
+   timestamps at all): the decoder's context, hence the result part, is that of the bare window with only the lookup records
+   kept - the result comes from the END record, which is the LAST record of the window *)
+Theorem c10_result_from_END_record : forall lk gstr nocancel enums h row s mid e,
+  render_row enums h (ctx_of_window lk gstr nocancel (s :: mid ++ [e])) row
+  = render_row enums h (ctx_of_window lk gstr nocancel (s :: filter (fun x => lk (w_code x)) mid ++ [e])) row.
+Proof. intros. apply rendering_ignores_other_records. Qed.
 
 Example c10_nontrivial :
   let H := mkHost (fun n => if N.eqb n 2 then Some "ENOENT"%string else None) (fun _ _ => None) (fun _ => 0) in
